@@ -35,7 +35,8 @@ TRUSTED = ['python ast', 'AVN normal form with gate-preserving widening', 'opaqu
 ASSUMPTIONS = ['all intermediate values are finite (the NaN scrub in resolve_position is the identity)', 'instantiated topologies: chain f-1-1 and two free bodies; generalisation over model '
                'size rests on the uniformity of gather / segment_sum / scan regrouping',
                'global velocity damping is 0 (the property\'s quantifier)',
-               '"stays exactly at rest" and multi-body contact averaging are not decided']
+               'multi-body contact averaging is not decided; the rest clause (R4.5) is decided for one step from a '
+               'consistent state, generalized pipeline without limit rows (iterative solver outside the fragment)']
 
 K = 'brax.kinematics'
 WIDEN = 12
@@ -330,9 +331,128 @@ class _Hints:
       self.rep.note('hint %s [%s]: %s' % (rule, key, message() if callable(message) else message))
 
 
+REST_MODELS = [
+    ('free root with a hinge child and a slide child, limited', [dict(parent=-1, joints=('f',)), dict(parent=0, joints=('h',)), dict(parent=0, joints=('s',))]),
+    ('world-attached slide rail with a hinge child, limited', [dict(parent=-1, joints=('s',)), dict(parent=0, joints=('h',))]),
+    ('world-attached hinge with a slide-hinge stack child, limited', [dict(parent=-1, joints=('h',)), dict(parent=0, joints=('s', 'h'))]),
+]
+
+
+def rest(U, rep, tier):
+  """R4.5 (Newton's first law): a system at rest (qd = 0) in a joint configuration strictly inside its limits, without
+  gravity, control, contact or joint springs, is still at rest after one step.  pipeline.init / step are executed by
+  random interpretation on consistent states (x = forward(q)); the ranges are symbolic (they need not contain 0) and
+  every comparison against a range end is decided as `inside`."""
+  from braxlint.props import c05
+  from braxlint import refkin
+  import os
+  s0 = int(os.environ.get('VERIF_SEED', '0') or 0)
+  for backend in ('spring', 'positional', 'generalized'):
+    f = U.func('brax.%s.pipeline.step' % backend)
+    for name, links in REST_MODELS:
+      if backend == 'positional' and any(len(l['joints']) > 1 for l in links):
+        # the positional 2-dof kernel reads the middle Euler angle through arccos * sign, outside the interpreted
+        # fragment (as in C08): every trial would be undecided
+        continue
+      salt = [0]
+
+      def body():
+        limits = c05.has_limits(backend)
+        M, sysd, tau = c05.build(links, limits=limits)
+        nv = M.nv
+        zero = np.array([Rat.lift(0)] * nv, dtype=object)
+        sysd.f['dof'].f['stiffness'] = zero.copy()
+        sysd = c05.with_gravity(sysd, P_zeros((3,)))
+        if limits:
+          lo, hi = sysd.f['dof'].f['limit']
+          lo_k = {Rat.lift(x).key() for x in lo}
+          hi_k = {Rat.lift(x).key() for x in hi}
+
+          def decide(nm):
+            if not isinstance(nm, avn.Atom):
+              return None
+            if nm.kind == 'any':
+              return 1
+            if nm.kind == 'isnan':
+              return 0
+            if nm.kind != 'bool' or nm[1] != '<':
+              return None
+            # the ranges lie on the positive side (0 < lo < q < hi, e.g. range="0.2 0.8"): a quantity that is exactly 0
+            # -- the rotation angle of a slide, the offset of a hinge -- is OUTSIDE the range
+            zero = (Rat.lift(0).key(),)
+            if nm[2] in zero and (nm[3] in lo_k or nm[3] in hi_k):
+              return 1          # 0 < lo, 0 < hi
+            if nm[3] in zero and (nm[2] in lo_k or nm[2] in hi_k):
+              return 0          # lo < 0, hi < 0
+            if nm[3] in lo_k or nm[2] in hi_k:
+              return 0          # x < lo, hi < x
+            if nm[2] in lo_k or nm[3] in hi_k:
+              return 1          # lo < x, x < hi
+            return None
+          avn.FIELD['decide'] = decide
+        avn.EXPAND_CLIP[0] = (lo_k | hi_k) if limits else False      # a clip against a range end is a pair of comparisons
+        # norms are the positive roots where the argument has one (|c q| / c = 1 for a unit q); elsewhere uninterpreted
+        avn.FIELD['sqrt_axiom'] = 'soft'
+        avn.FIELD['soft_hits'] = 0
+        avn.FIELD['soft_salt'] = salt[0]
+        try:
+          out, _ = c05.simulate(U, backend, sysd, M.q, zero.copy(), zero.copy(), 1)
+        finally:
+          avn.EXPAND_CLIP[0] = False
+        s_init, s1 = out
+        bad = []
+        for k in ('ang', 'vel'):
+          if not same(s1.f['xd'].f[k], P_zeros((M.n, 3))):
+            bad.append('xd.' + k)
+        if not same(s1.f['qd'], zero):
+          bad.append('qd')
+        if not same(s1.f['x'].f['pos'], s_init.f['x'].f['pos']):
+          bad.append('x.pos')
+        sig = tuple(Rat.lift(v).fv for k_ in ('ang', 'vel') for v in asarr(s1.f['xd'].f[k_]).ravel()) + tuple(
+            Rat.lift(v).fv for v in asarr(s1.f['qd']).ravel()) + tuple(
+                (Rat.lift(a) - Rat.lift(b)).fv for a, b in zip(asarr(s1.f['x'].f['pos']).ravel(), asarr(s_init.f['x'].f['pos']).ravel()))
+        return bad, avn.FIELD['soft_hits'], sig
+      found = None
+      undecided = 0
+      for t in range(2 if tier == 'quick' else 4):
+        # square roots without a root at the random point stay uninterpreted (sound for a law that holds).  A FAILING
+        # trial is a verdict only if its outcome does not depend on them: no such root met, or the same outcome with
+        # those atoms re-drawn (salt); otherwise another point is tried
+        verdict = None
+        for retry in range(12):
+          sd = s0 * 100 + 40 + t + 1000 * retry
+          salt[0] = 0
+          bad, soft, sig = c05.trial(sd, body)
+          if not bad:
+            verdict = False
+            break
+          if soft:
+            salt[0] = 1
+            bad2, _, sig2 = c05.trial(sd, body)
+            if sig2 != sig:
+              continue
+          verdict = bad
+          break
+        if verdict is None:
+          undecided += 1
+        elif verdict:
+          found = verdict
+          break
+      if undecided:
+        rep.note('R4.5 [%s, %s]: %d trial(s) undecided (every failing point depended on a value the interpreter leaves uninterpreted: '
+                 'a square root without a root in GF(p), an inverse-trigonometric atom); not counted' % (backend, name, undecided))
+        if not found:
+          continue
+      rep.check(not found, 'R4.5', '%s pipeline: a system at rest inside its limits stays at rest [%s]' % (backend, name),
+                lambda: 'after one step from rest (no gravity, control, contact, joint springs; every coordinate strictly inside its '
+                'symbolic range) the state moves: %s are not zero / unchanged' % ', '.join(found), where=f.where(),
+                construct="init(q, 0) then step: xd' == 0, qd' == 0, x' == x  [ranges symbolic, need not contain 0]")
+
+
 def run(U, rep, tier):
   leaf_laws(U, rep)
   momentum(U, rep, tier)
+  rest(U, rep, tier)
   try:
     one_mass(U, _Hints(rep))
   except AnalysisError as e:
